@@ -59,6 +59,12 @@ def handleAlg (op : String) (j : Json) : Option (Except String Json) :=
     let s ← (← j.getObjVal? "src").getNat?
     let d ← (← j.getObjVal? "dst").getNat?
     pure (both (fun P => PolyAlg.rename P c s d) [] [])
+  | "rename_all" => run do
+    let c ← getC (← j.getObjVal? "c1")
+    let ms ← (← (← j.getObjVal? "maps").getArr?).toList.mapM fun m => do
+      let a ← m.getArr?
+      pure ((← a[0]!.getNat?), (← a[1]!.getNat?))
+    pure (both (fun P => PolyAlg.renameAll P c ms) [] [])
   | _ => none
 
 end OpsAlg
